@@ -97,6 +97,25 @@ def clone_equals(p):
     return Prog.from_sourcefile(c, p.entry.name, absent=p.absent)
 
 
+def clone_outlives(p):
+    """the clone must not depend on the lifetime of the original (weak references into the original's IR)"""
+    import gc  # pylint: disable=import-outside-toplevel
+    c = p.sourcefile.clone()
+    name, absent = p.entry.name, p.absent
+    p.sourcefile, p.routines, p.modules, p.entry = None, [], [], None
+    gc.collect()
+    q = Prog.from_sourcefile(c, name, absent=absent)
+    q.fortran()
+    return Prog.from_source(p.text_orig, name, absent=absent), q
+
+
+def mk_outlives(src):
+    def f(p):
+        p.text_orig = src
+        return clone_outlives(p)
+    return f
+
+
 def mk_edit_clone(k):
     def f(p):
         c = p.sourcefile.clone()
@@ -131,6 +150,8 @@ def c17_cases():
     for name, src, entry, sizes in sources():
         out.append(Case(f'{name}/clone-equals-original', src, entry, sizes[:1], clone_equals, 'clone', must_change=False, raise_is_violation=True))
         out.append(Case(f'{name}/routine-clone', src, entry, sizes[:1], routine_clone, 'clone', must_change=False))
+        out.append(Case(f'{name}/clone-outlives-original', src, entry, sizes[:1], mk_outlives(src), 'clone', must_change=False,
+                        raise_is_violation=True))
         for k in (0, 2):
             out.append(Case(f'{name}/edit-clone-{k}', src, entry, sizes[:1], mk_edit_clone(k), 'clone', must_change=False))
             out.append(Case(f'{name}/edit-original-{k}', src, entry, sizes[:1], mk_edit_original(k), 'clone', must_change=False))
